@@ -270,14 +270,17 @@ Definition drop_file (w2 : world) (fid : N) (x : txs) : world :=
 
 (** when the rewrite transaction is rejected nothing was written ([do_commit_false]):
     the world is the one with the fresh (empty) active file, the old file stays,
-    and the flag is false *)
+    and the flag is false;
+    when there is nothing to rewrite the file is removed, after a fresh active
+    file was started if it was the active one (fix "Merge replaces an active
+    segment that holds only dead records") *)
 Lemma merge_file_eq : forall now w fid txid,
   merge_file now w fid txid =
   match disk_get (w_disk w) fid with
   | None => (w, true)
   | Some seg =>
       match merge_pend now w fid txid seg with
-      | [] => (if fid =? w_maxfid w then w else drop_file w fid (w_tx w), true)
+      | [] => (if fid =? w_maxfid w then drop_file (new_file w) fid (w_tx w) else drop_file w fid (w_tx w), true)
       | pend => if snd (do_commit None (new_file w) (mkTx txid true pend))
                 then (drop_file (fst (do_commit None (new_file w) (mkTx txid true pend))) fid (w_tx w), true)
                 else (new_file w, false)
@@ -312,7 +315,7 @@ Proof.
     destruct He' as [pe [Epe Hpe]]. subst e'. apply filter_In in Hpe. destruct Hpe as [Hin Hkeep].
     exact (kept_entry_noop now w s fid seg txid pe Hrel Hloc Hlat Eseg Hin Hkeep). }
   destruct (merge_pend now w fid txid seg) as [|e0 rest] eqn:Epend.
-  - cbn [fst]. destruct (fid =? w_maxfid w); [exact Hrel|]. intros b. exact (Hrel b).
+  - cbn [fst]. destruct (fid =? w_maxfid w); intros b; exact (Hrel b).
   - cbv beta iota zeta. assert (Hrel1 : kvrel (new_file w) s) by (intros b; exact (Hrel b)).
     destruct (do_commit None (new_file w) (mkTx txid true (e0 :: rest))) as [w2 ok] eqn:Ec.
     cbn [fst snd]. destruct ok; cbn [fst]; [|exact Hrel1].
@@ -663,10 +666,14 @@ Proof.
   destruct (disk_get (w_disk w) fid) as [seg|] eqn:Eseg; [|split; [exact HM|intros r Hr; left; exact Hr]].
   assert (Hfid : fid <= w_maxfid w) by (apply (mi_max w HM); exact (disk_get_some_in _ _ _ Eseg)).
   destruct (merge_pend now w fid txid seg) as [|e0 rest] eqn:Epend.
-  - cbn [fst]. destruct (fid =? w_maxfid w) eqn:E; [split; [exact HM|intros r Hr; left; exact Hr]|].
-    split.
-    + apply drop_file_minv; [exact HM|lia].
-    + intros r Hr. left. unfold recs in Hr. cbn [drop_file w_disk] in Hr. exact (in_recs_remove _ _ _ Hr).
+  - cbn [fst]. destruct (fid =? w_maxfid w) eqn:E.
+    + destruct (new_file_minv w HM) as [HM1 Hrecs1]. split.
+      * apply drop_file_minv; [exact HM1|cbn [new_file w_maxfid]; lia].
+      * intros r Hr. left. rewrite <- Hrecs1. unfold recs in Hr. cbn [drop_file w_disk] in Hr.
+        exact (in_recs_remove _ _ _ Hr).
+    + split.
+      * apply drop_file_minv; [exact HM|lia].
+      * intros r Hr. left. unfold recs in Hr. cbn [drop_file w_disk] in Hr. exact (in_recs_remove _ _ _ Hr).
   - cbv beta iota zeta. destruct (new_file_minv w HM) as [HM1 Hrecs1].
     destruct (commit_minv (new_file w) (mkTx txid true (e0 :: rest)) HM1) as (HM2 & Hsub & Hmono).
     + cbn [tx_id]. rewrite Hrecs1. exact Hfresh.
@@ -1267,7 +1274,9 @@ Proof.
   assert (Hfid : fid <= w_maxfid w).
   { destruct HW as (HM & _). apply (mi_max w HM). exact (disk_get_some_in _ _ _ Eseg). }
   destruct (merge_pend now w fid txid seg) as [|e0 rest] eqn:Epend.
-  - cbn [fst]. destruct (fid =? w_maxfid w) eqn:E; [exact HW|]. apply drop_file_w2; [exact HW|lia].
+  - cbn [fst]. destruct (fid =? w_maxfid w) eqn:E.
+    + destruct (new_file_w2 w HW) as [HW1 _]. apply drop_file_w2; [exact HW1|cbn [new_file w_maxfid]; lia].
+    + apply drop_file_w2; [exact HW|lia].
   - cbv beta iota zeta. destruct (new_file_w2 w HW) as [(HM1 & Hwf1 & Hoff1) Hrecs1].
     destruct (commit_minv (new_file w) (mkTx txid true (e0 :: rest)) HM1) as (HM2 & _ & Hmono).
     + cbn [tx_id]. rewrite Hrecs1. exact Hfresh.
